@@ -31,12 +31,16 @@ pub fn flu(v: &[usize]) -> String {
 // ---------------------------------------------------------------- faulty writer (the `Write` contract)
 
 /// accepts `limits[call % len]` bytes per call; call number `fail_at` returns an error and takes nothing
-pub struct FaultWriter { pub limits: Vec<usize>, pub fail_at: Option<usize>, pub calls: usize, pub out: Vec<u8> }
+pub struct FaultWriter { pub limits: Vec<usize>, pub fail_at: Option<usize>, pub calls: usize, pub out: Vec<u8>, pub intr: Vec<usize>, pub icalls: usize }
 impl FaultWriter {
-    pub fn new(limits: Vec<usize>, fail_at: Option<usize>) -> Self { FaultWriter { limits, fail_at, calls: 0, out: vec![] } }
+    pub fn new(limits: Vec<usize>, fail_at: Option<usize>) -> Self { FaultWriter { limits, fail_at, calls: 0, out: vec![], intr: vec![], icalls: 0 } }
+    /// additionally answers the `write` calls with these indices (counted over ALL calls) with ErrorKind::Interrupted ("retry", nothing taken)
+    pub fn with_interrupts(mut self, intr: Vec<usize>) -> Self { self.intr = intr; self }
 }
 impl Write for FaultWriter {
     fn write(&mut self, buf: &[u8]) -> std::io::Result<usize> {
+        let ic = self.icalls; self.icalls += 1;
+        if self.intr.contains(&ic) { return Err(std::io::Error::new(std::io::ErrorKind::Interrupted, "injected interrupt")); }
         let c = self.calls; self.calls += 1;
         if self.fail_at == Some(c) { return Err(std::io::Error::new(std::io::ErrorKind::Other, "injected fault")); }
         let lim = if self.limits.is_empty() { 8 } else { self.limits[c % self.limits.len()] };
